@@ -1,5 +1,6 @@
 mod backendfam;
 mod chain;
+mod concfam;
 mod crashfam;
 mod faultstore;
 mod cloudfam;
@@ -167,6 +168,22 @@ fn main() {
             let p = arg(&args, "--script").expect("--script");
             let s: Value = serde_json::from_str(&std::fs::read_to_string(p).unwrap()).unwrap();
             emit(&mut out, util::guarded(|| crashfam::exec_crash(&s)));
+        }
+        "sqlite-conc-gated" | "sqlite-conc-free" => {
+            for id in first..first + count {
+                emit(&mut out, util::guarded(|| concfam::gen_conc(seed, id, fam == "sqlite-conc-gated", maxlen)));
+            }
+        }
+        "sqlite-conc-exec" => {
+            let p = arg(&args, "--script").expect("--script");
+            let s: Value = serde_json::from_str(&std::fs::read_to_string(p).unwrap()).unwrap();
+            emit(&mut out, util::guarded(|| concfam::exec_conc(&s)));
+        }
+        "sqlite-proc-child" => {
+            concfam::proc_child(&arg(&args, "--dir").expect("--dir"), first, count);
+        }
+        "sqlite-procs" => {
+            writeln!(out, "{}", concfam::proc_runs(seed, count)).unwrap();
         }
         "sqlite-child" => {
             crashfam::child(&arg(&args, "--dir").expect("--dir"), count);
